@@ -396,7 +396,8 @@ def r6(F, R):
     """Tee / Repeat deliver *clones* of the events: cloning an event keeps its variant and every field (path tables of the
     Clone impls of the event types)."""
     roles.check_clone_faithful_table(F, R, "event::", "event-clone-faithful")
-    R.floor(10)
+    roles.check_clone_faithful_table(F, R, "writer::", "writer-clone-faithful")
+    R.floor(30)
 
 
 RULES = [("R5", r5, None), ("R4", r4, None), ("R1", r1, None), ("R2", r2, None), ("R3", r3, None), ("R6", r6, None)]
